@@ -100,6 +100,7 @@ fn main() {
         "strings" => strings_corr::run(&tier, seed, &out),
         "missed" => missed_corr::run(&tier, seed, &out),
         "missed-width" => missed_corr::width_probe(),
+        "missed-c03" | "missed-c08" | "missed-c16" | "missed-c02" => missed_corr::run_part(&prop[7..], &tier, seed, &out),
         "boundary" => boundary::main(&args[2..]),
         "c03" => c03::run(&tier, seed, &out),
         "lists" => lists_corr::run(&tier, seed, &out),
